@@ -83,6 +83,8 @@ def make(case):
                      dup=case.get('dup', 0), cancel=bool(case.get('cancel')))
     if case.get('ctime'):
         m['ctime'] = case['ctime']      # creation time of the INPUT file (it may coincide textually with the data start / end epoch)
+    if case.get('comments'):
+        m['comments'] = case['comments']
     d = workdir()
     path = os.path.join(d, 'in.snx')
     snxgen.write(path, m, case['tri'], extra=bool(case.get('extra')))
@@ -284,6 +286,16 @@ def gen_remove(tier, seed):
             subsets = [list(s) for r in range(0, cfg['nstn']) for s in itertools.combinations(names, r)]
             for order in (snxgen.ORDERS[1:] if cfg['vel'] else ['reversed']):
                 yield dict(cfg, subsets=subsets[:64], order=order)
+    # comment lines are optional: data blocks without their column-header comment, or with two comment lines
+    for cfg in configs(tier):
+        if cfg['nstn'] in (2, 3, 5):
+            names = snxgen.codes(cfg['nstn'])
+            subsets = [list(s) for r in range(0, cfg['nstn']) for s in itertools.combinations(names, r)]
+            for cm in COMMENT_FORMS:
+                yield dict(cfg, subsets=subsets[:64], comments=cm)
+
+
+COMMENT_FORMS = ['none', 'double']
 
 
 def ev_remove(case, rec):
@@ -347,6 +359,11 @@ def gen_other(tier, seed):
         if cfg['nstn'] <= 7:
             for order in (snxgen.ORDERS[1:] if cfg['vel'] else ['reversed']):
                 yield dict(cfg, op='velocity' if cfg['vel'] else 'zeros', order=order, blockdiag=not cfg['vel'])
+        if cfg['nstn'] in (2, 3, 5):
+            for cm in COMMENT_FORMS:
+                yield dict(cfg, op='readers', comments=cm)
+                yield dict(cfg, op='zeros', blockdiag=False, comments=cm)
+                yield dict(cfg, op='velocity' if cfg['vel'] else 'zeros', blockdiag=not cfg['vel'], comments=cm)
 
 
 def ev_other(case, rec):
